@@ -36,6 +36,28 @@ let () =
                 tq_minor = n_of_int (int_of_string mi); tq_headers = str_of_hex hs } in
       hex_of_str (request_message r (n_of_decstr n))
     | _ -> failwith "reqmsg");
+  (* builder operations: C:<hex> (constructor header string, first) S:<hex> I:<id>:<hex> F:<hex>:<hex> L:<n> V H *)
+  let parse_ops (s : string) =
+    let h0 = ref [] and ops = ref [] in
+    List.iter (fun o -> match String.split_on_char ':' o with
+        | ["C"; h] -> h0 := str_of_hex h
+        | ["S"; h] -> ops := BSet (str_of_hex h) :: !ops
+        | ["I"; i; v] -> ops := BAddId (nat_of_int (int_of_string i), str_of_hex v) :: !ops
+        | ["F"; n; v] -> ops := BAddFree (str_of_hex n, str_of_hex v) :: !ops
+        | ["L"; n] -> ops := BAddCL (n_of_decstr n) :: !ops
+        | ["V"] -> ops := BServer :: !ops
+        | ["H"] -> ops := BContentHttp :: !ops
+        | _ -> failwith "bop") (split_on ';' s);
+    (!h0, List.rev !ops) in
+  reg "reqops" (fun a -> match a with [m; u; ma; mi; ops; n] ->
+      let (h0, ops) = parse_ops ops in
+      hex_of_str (request_ops_message (str_of_hex m) (str_of_hex u) (n_of_int (int_of_string ma)) (n_of_int (int_of_string mi)) h0 ops (n_of_decstr n))
+    | _ -> failwith "reqops");
+  reg "respops" (fun a -> match a with [st; reason; ops; n] ->
+      let (h0, ops) = parse_ops ops in
+      let r = response_ops (str_of_hex reason) (n_of_decstr st) h0 ops in
+      Printf.sprintf "valid=%s msg=%s" (b2s (tx_response_is_valid r)) (hex_of_str (response_message r (n_of_decstr n)))
+    | _ -> failwith "respops");
   reg "chunkhdr" (fun a -> match a with [n; ext] -> hex_of_str (chunk_header_string (n_of_decstr n) (str_of_hex ext)) | _ -> failwith "chunkhdr");
   reg "lastchunk" (fun a -> match a with [ext; tr] -> hex_of_str (last_chunk_string (str_of_hex ext) (str_of_hex tr)) | _ -> failwith "lastchunk");
   reg "hdrid" (fun a -> match a with [i; v] ->
